@@ -115,6 +115,21 @@ def run(ck):
             ck.ob("CMP", a, "path-differs-from:" + b.split("::")[-1], differ,
                   "same root and length, separated by a literal component" if differ else
                   "%s and %s build paths of the same shape with no differing literal component: the two keys coincide for equal indices" % (a.split("::")[-1], b.split("::")[-1]), "")
+    # the issuer's contract index/subindex reach the path through split_u64_into_chunks: it must be injective (every input
+    # bit occurs exactly once in the four components) and each component must stay below 2^31 so that hardening keeps it
+    f = getfn(ck, "rs", K, K + "::split_u64_into_chunks")
+    if f:
+        from vlib import bitprov
+        v = bitprov.local(f, 0, [], 0)
+        bits, unk = bitprov.input_bits(v)
+        lost = sorted(set(range(64)) - set(b for (_, b) in bits))
+        dup = len(bits) != len(set(bits))
+        ck.ob("COV", f.path, "every-input-bit-in-exactly-one-component", v is not None and not unk and not lost and not dup,
+              "all 64 bits of the index occur exactly once in the path components" if v is not None and not unk and not lost and not dup else
+              ("bit(s) %s of the index reach no path component: distinct issuers derive the same key" % lost if lost else
+               "the packing could not be followed bit by bit (unknown parts: %s, duplicated bits: %s)" % (unk, dup)), f.loc())
+        small = isinstance(v, tuple) and all(isinstance(e, list) and all(b == 0 for b in e[31:32]) for e in v[1])
+        ck.ob("CMP", f.path, "components-below-2^31", small, "bit 31 of every component is zero (checked_harden never refuses them)" if small else "a component can reach 2^31", f.loc())
     f = getfn(ck, "rs", "keygen_bls", "keygen_bls::keygen_bls")
     if f:
         enf_calls(ck, f, r"Hkdf::<H, I>::expand$|::expand$", "hkdf expand")
